@@ -2,7 +2,7 @@
 # tools/evalall.sh <tier> Cxx [extra checks]  -- evaluates /tmp/mut/Cxx/mutants/{1,2}
 tier=$1; id=$2; shift 2
 for k in 1 2; do
-  d=/tmp/mut/$id/mutants/$k
+  d=${MUTBASE:-/tmp/mut}/$id/mutants/$k
   [ -f $d/patch.diff ] || continue
   echo "=== $id mutant $k: $(head -3 $d/README.md 2>/dev/null | tr '\n' ' ' | cut -c1-160)"
   /verif/tools/trymutant.sh $d $tier $id "$@" 2>&1 | grep -v '^ok\|^FAIL\|^---\|^    ' | cut -c1-330
